@@ -16,26 +16,31 @@ def scale(u, amax, dcap):
             "VARINT_VERIF_BITMAP_DEFAULT_ARRAY_CAPACITY": dcap}
 
 
-SCALES = {"s16": (16, 4, 2), "s8": (8, 2, 1)}
+SCALES = {"s16": (16, 4, 2), "s8": (8, 2, 1), "s32": (32, 8, 2)}
 
 META = {
     "bounds": "inductive step: pre-state = any well-formed container of a concrete shape with symbolic contents, one operation with "
               "symbolic operands. Scaled instances via the MATTSTA_VARINT_VERIF hook of varintBitmap.h: s16 = universe 16, ARRAY_MAX 4, "
-              "2-byte bitmap, default capacity 2; s8 = universe 8, ARRAY_MAX 2, 1-byte bitmap, default capacity 1. Shapes: array "
+              "2-byte bitmap, default capacity 2; s8 = universe 8, ARRAY_MAX 2, 1-byte bitmap, default capacity 1; thorough only: s32 = "
+              "universe 32, ARRAY_MAX 8, 4-byte bitmap, default capacity 2 (one-step and range queries, quick shape grid, without the "
+              "iterator/ToArray scan of a bitmap container). Shapes: array "
               "cardinality 0..ARRAY_MAX x capacity (quick: tight and ARRAY_MAX; thorough: every capacity up to 2*ARRAY_MAX-1), bitmap "
               "(every content; split by cardinality class where the operation converts), runs containers of 0, 1 and 2 runs (split by total "
               "cardinality where the operation converts). Operations: Create, Add, Remove, Clear, Clone, Encode->Decode, Decode of a "
               "hand-written consistent serialisation, AddRange, RemoveRange, AddMany (0..3 values), Or/And/Xor/AndNot on every pair of "
               "shapes incl. both operands being the same object; observers Contains(symbolic x), Cardinality, IsEmpty, full iterator "
               "sequence, ToArray on every shape. Callers that loop over Add/Remove (and, for the set algebra, Contains/IteratorNext) "
-              "are verified against the callee contracts proved by the one-step queries of the same scale (set algebra: s8 in quick, "
-              "s8 + s16 in thorough). Real constants (65536/4096/8192/16): arrays of 0..4 members, bitmaps with 0..2 members, runs "
-              "containers with 0..2 runs with symbolic 16-bit starts and lengths: observers (first 6 members through the iterator), Add, "
-              "Remove, Clear, Clone, Encode->Decode, AddRange/RemoveRange of length <= 2 and AddRange longer than 4096 on an empty set.",
+              "are verified against the callee contracts proved by the one-step queries of the same scale (set algebra: s8 on 5 shapes per "
+              "operand plus s16 Or/And/AndNot in quick; s8 and s16 on every shape pair in thorough). Real constants (65536/4096/8192/16): "
+              "arrays of 0..4 members, bitmaps that are zero except 0..2 members, runs containers with 0..2 runs; contents drawn from five "
+              "16-value windows at 0, 256, 4096, 32768 and the top of uint16_t (run ends up to 65536), operands and the membership probe "
+              "full 16-bit: observers (first 6 members through the iterator), Add, Remove, Clear, Clone, Encode->Decode, and modular "
+              "AddRange/RemoveRange of length <= 8 plus AddRange longer than 4096 on an empty set (the single-run shortcut).",
     "outside": "allocation failure (C18); hostile serialisations (C14); histories are covered only through the induction (every "
                "post-state is shown well-formed, every well-formed shape of the scaled instance is a pre-state of every operation), not "
-               "by exploring sequences; at the real constants: dense bitmaps, iteration/ToArray/conversion of a bitmap container, runs "
-               "containers whose conversion needs more than 4 steps, ranges of length 3..4096, ranges > 4096 on a non-empty set "
+               "by exploring sequences; at the real constants: contents outside the five windows, dense bitmaps, iteration/ToArray/conversion/Clear/Clone/"
+               "serialisation of a bitmap container, runs containers whose conversion needs more than 4 steps, ranges of length 9..4096, "
+               "ranges > 4096 on a non-empty set "
                "(the same code is covered at the scaled constants); runs containers with more than 2 runs; GetStats/SizeBytes/Optimize.",
     "assumptions": [
         "well-formed container = what varintBitmapDecode builds from a consistent serialisation (sorted duplicate-free array of at most "
@@ -89,6 +94,8 @@ def step_queries(sn, tier):
             S("observe-%s" % n, 0, d, 7)
         else:
             for obs, on in ((1, "scalar"), (2, "iter"), (4, "toarray")):
+                if sn == "s32" and n == "B" and obs != 1:
+                    continue    # 33 x 33 bitmap scan steps on symbolic bits: no verdict in 10 min; same code at s8/s16
                 S("observe-%s-%s" % (n, on), 0, d, obs, w=4)
     # Add / Remove
     for op, on in ((1, "add"), (2, "remove")):
@@ -144,6 +151,8 @@ def mod_queries(sn, tier, algebra):
         ops1 = [("A0", {"T1": 0, "CARD1": 0, "CAP1": 0}), ("A%d" % (amax // 2), {"T1": 0, "CARD1": amax // 2, "CAP1": amax}),
                 ("A%d" % amax, {"T1": 0, "CARD1": amax, "CAP1": amax}), ("B", {"T1": 1}), ("R2", {"T1": 2, "NR1": 2, "RCAP1": 2})]
     for op, on in ((13, "or"), (14, "and"), (15, "xor"), (16, "andnot")):
+        if op == 15 and algebra == "some-noxor":
+            continue    # s16 Xor (two iterations): up to ~250 s per query, thorough tier only
         for n1, d1 in ops1:
             M("%s-%s-self" % (on, n1), op, dict(d1, ALIAS=1), w=3)
             for n2, d2 in ops1:
@@ -164,21 +173,19 @@ def real_queries(tier):
         qs.append(Query("real-%s" % name, "bitmap/real.c", UNITS, defs=d, unwind=10, unwindset=big if sd.get("T1") == 1 else None,
                         timeout=to, weight=w, extra=["--arrays-uf-always"] if sd.get("T1") == 1 else []))
 
-    OPN = {0: "observe", 1: "add", 2: "remove", 3: "clear", 4: "clone", 5: "encdec", 10: "addrange-empty"}
+    OPN = {0: "observe", 1: "add", 2: "remove", 3: "clear", 4: "clone", 5: "encdec"}
     cards = (0, 1, 2, 4) if tier == "quick" else (0, 1, 2, 3, 4)
     for card in cards:
         for cap in sorted({card, 16}) if tier != "quick" else (card,) if card else (0, 16):
             for op in OPN:
-                if op == 10 and card:
-                    continue
                 Rq("%s-A%dc%d" % (OPN[op], card, cap), op, {"T1": 0, "CARD1": card, "CAP1": cap})
-    # AddRange / RemoveRange of length <= ARRAY_MAX + 4 (incl. just longer than ARRAY_MAX on non-empty sets), callee replaced
-    for n, sd in (("A0c0", {"T1": 0, "CARD1": 0, "CAP1": 0}), ("A1c1", {"T1": 0, "CARD1": 1, "CAP1": 1}),
-                  ("A4c4", {"T1": 0, "CARD1": 4, "CAP1": 4}), ("R0", {"T1": 2, "NR1": 0, "RCAP1": 1}),
+    # AddRange / RemoveRange of length <= 8 and the single-run shortcut (long range on an empty set), callee replaced
+    for n, sd in (("A0c0", {"T1": 0, "CARD1": 0, "CAP1": 0}), ("A0c16", {"T1": 0, "CARD1": 0, "CAP1": 16}),
+                  ("A1c1", {"T1": 0, "CARD1": 1, "CAP1": 1}), ("A4c4", {"T1": 0, "CARD1": 4, "CAP1": 4}), ("R0", {"T1": 2, "NR1": 0, "RCAP1": 1}),
                   ("R1", {"T1": 2, "NR1": 1, "RCAP1": 1}), ("R2", {"T1": 2, "NR1": 2, "RCAP1": 2})):
         for op, on, loop in ((12, "addrange", "varintBitmapAddRange.0"), (13, "removerange", "varintBitmapRemoveRange.0")):
             qs.append(Query("real-%s-mod-%s" % (on, n), "bitmap/real.c", UNITS, defs=dict(sd, OP=op), unwind=10,
-                            unwindset={loop: 4102}, timeout=900, weight=6,
+                            unwindset={loop: 10}, timeout=600, weight=3,
                             replace_calls={"varintBitmapAdd": "contract_add_real", "varintBitmapRemove": "contract_remove_real"}))
     for card in (0, 1, 2):
         for op in (0, 1, 2):    # whole-object operations on 8192 symbolic-index bytes do not finish (covered scaled)
@@ -198,7 +205,10 @@ def queries(tier):
     qs = []
     qs += step_queries("s16", tier)
     qs += step_queries("s8", tier)
-    qs += mod_queries("s16", tier, None if tier == "quick" else "some")
+    qs += mod_queries("s16", tier, "some-noxor" if tier == "quick" else "full")
     qs += mod_queries("s8", tier, "some" if tier == "quick" else "full")
     qs += real_queries(tier)
+    if tier != "quick":
+        # a third ratio (ARRAY_MAX 8: deeper binary search, two capacity doublings); shapes as in the quick grid
+        qs += step_queries("s32", "quick") + mod_queries("s32", "quick", None)
     return qs
